@@ -39,6 +39,7 @@ type ghostFibSlice = []table.FibEntry
 //@   ensures table.ribInv(dv.rib) && table.ntInv(dv.neighbors)
 //@   ensures forall(func(a uint64, b uint64) bool { return dv.rib.hasEntry(a) && dv.rib.hasEntry(b) && a != b ==> dv.rib.entries[a].costs != dv.rib.entries[b].costs })
 //@   ensures old(table.ribClean(dv.rib)) ==> table.ribClean(dv.rib)
+//@   assert before Prune@1 [dead-hop-removed] forall(func(h uint64) bool { return dv.rib.hasEntry(h) ==> !dv.rib.entries[h].hasHop(enc.SpecNameHash(ns.Name)) })
 //@   loop 1 invariant table.ribInv(dv.rib) && table.ntInv(dv.neighbors)
 //@   loop 1 invariant forall(func(a uint64, b uint64) bool { return dv.rib.hasEntry(a) && dv.rib.hasEntry(b) && a != b ==> dv.rib.entries[a].costs != dv.rib.entries[b].costs })
 //@   loop 1 invariant old(table.ribClean(dv.rib)) ==> table.ribClean(dv.rib)
